@@ -41,7 +41,7 @@ def run(ctx):
             msg = 'expected target %s; got %s, codec seek reached: %s, returns %s' % (exp['target'], got['target'], got['seek_called'], got['rets'])
         ctx.ob('WHENCE', key, ok, f.loc(f.body), msg, got)
 
-    ctx.rule('SEEK-GATE', 'the indirect call psf->seek in sf_seek is dominated by the seekable test, by `seek_from_start < 0` -> SFE_BAD_SEEK, and in read mode by `seek_from_start > sf.frames` -> SFE_BAD_SEEK', floor=3)
+    ctx.rule('SEEK-GATE', 'the indirect call psf->seek in sf_seek is dominated by the seekable test, by `seek_from_start < 0` -> SFE_BAD_SEEK, and in read mode by `seek_from_start > sf.frames` -> SFE_BAD_SEEK (read mode = the open mode of the handle, psf->file.mode)', floor=4)
     call = [c for c in f.calls() if prog.indirect_callee_slot(f, c) and prog.indirect_callee_slot(f, c)[1] == 'seek']
     ctx.require(call, 'sf_seek has no codec seek dispatch')
     bd = Bounds(prog, f, eff)
@@ -55,6 +55,12 @@ def run(ctx):
     ub = [blk for blk in f.cfg.blocks.values() if 'cond' in blk and '(seek_from_start > psf->sf.frames)' in f.s(blk['cond'])
           and f.cfg.dominates((blk['id'], len(blk['elems'])), call[0]) is not None]
     ctx.ob('SEEK-GATE', 'upper-read', bool(ub), f.loc(call[0]), 'range test target > frames %s' % ('present' if ub else 'MISSING'), None)
+    # which handles get the lenient (write style) range test is decided by the handle's open mode, never by the mode bits of `whence`
+    lenient = [n for n in f.walk() if n['k'] == 'IfStmt' and n.get('else') is not None and any(x['k'] == 'IfStmt' and '(seek_from_start > psf->sf.frames)' in f.s(x['cond']) for x in f.walk(n['else']))
+               and '(seek_from_start > psf->sf.frames)' not in f.s(n['cond'])]
+    okm = bool(lenient) and all(f.s(n['cond']).replace(' ', '') in ('((psf->file.mode==SFM_RDWR)||(psf->file.mode==SFM_WRITE))', '((psf->file.mode==SFM_WRITE)||(psf->file.mode==SFM_RDWR))') for n in lenient[-1:])
+    ctx.ob('SEEK-GATE', 'upper-read:mode', okm, f.loc(lenient[-1]) if lenient else f.loc(call[0]), 'the strict upper range test is skipped %s' % ('exactly for handles opened SFM_WRITE / SFM_RDWR' if okm else
+           'under `%s`, which is not the handle\'s open mode: a read-only handle can be sought past its last frame with a mode-qualified whence' % (f.s(lenient[-1]['cond'])[:80] if lenient else '?')), None)
 
     ctx.rule('SEEK-ERR', 'sf_seek and every function in the seek slot: every `return PSF_SEEK_ERROR` / `return -1` is preceded on all paths by a store of a non-zero value into psf->error, '
              'or happens under a test of psf->error; no return statement returns an SFE_* error constant as a position', floor=20)
